@@ -661,13 +661,22 @@ OPT_VECTORS = [
 
 # ------------------------------------------------------------------ worker (module level for pl.pmap)
 def work(item):
-    o, ops, all_steps = item
+    """judge + tie for one history; returns a small summary (keeps pipe traffic low)"""
+    o, ops, all_steps, line, want_sample = item
     try:
         res, bad, info = judge(o, ops, all_steps)
     except Exception as e:  # evaluator trouble is a harness bug, surface it
         return {"o": o, "ops": ops, "crash": repr(e)}
-    return {"o": o, "ops": ops, "bad": bad, "info": info, "status": res["status"], "rets": res["rets"],
-            "rmap": res["rmap"], "final": res["final"]}
+    out = {"status": res["status"], "rets": res["rets"], "rmap": res["rmap"], "final": res["final"]}
+    try:
+        verdict, why = compare_model(out, parse_model(line))
+    except Exception as e:
+        verdict, why = "unparsed", "cannot parse oracle answer %r (%r)" % (line[:200], e)
+    summ = {"o": o, "ops": ops, "bad": bad, "info": info, "verdict": verdict, "why": why,
+            "nnodes": len(res["final"]["nodes"])}
+    if want_sample:
+        summ["sample"] = {"opts": opts_dict(o), "ops": ops, "returned": res["rmap"], "nodes": res["final"]["nodes"]}
+    return summ
 
 
 def compare_model(out, model):
@@ -703,11 +712,13 @@ def compare_model(out, model):
 
 
 def process(ctx, exe, items, label, jobs=8):
-    outs = pl.pmap(work, items, jobs=jobs, chunksize=64)
     lines = ctx.oracle(exe, [request(it[0], it[1]) for it in items])
+    nsamp = len(ctx.cov["samples"])
+    outs = pl.pmap(work, [(it[0], it[1], it[2], line, (k % 997 == 0 and nsamp < 8)) for k, (it, line) in enumerate(zip(items, lines))],
+                   jobs=jobs, chunksize=256)
     reported = getattr(ctx, "_c11_reported", set())
     ctx._c11_reported = reported
-    for out, line in zip(outs, lines):
+    for out in outs:
         o, ops = out["o"], out["ops"]
         if "crash" in out:
             ctx.broken.append("harness:evaluator crashed on %r: %s" % (ops, out["crash"]))
@@ -715,9 +726,8 @@ def process(ctx, exe, items, label, jobs=8):
         info = out["info"]
         if info["ill"]:
             ctx.count(label + "_illformed")
-        nontrivial = (len(out["final"]["nodes"]) >= 3 and any(op[0] in "CD" for op in ops))
-        ctx.case((o, tuple(ops)), nontrivial and not info["ill"],
-                 sample={"opts": opts_dict(o), "ops": ops, "returned": out["rmap"], "nodes": out["final"]["nodes"]})
+        nontrivial = (out["nnodes"] >= 3 and any(op[0] in "CD" for op in ops))
+        ctx.case((o, tuple(ops)), nontrivial and not info["ill"], sample=out.get("sample"))
         ctx.count(label)
         ctx.count(label + "_len", len(ops))
         if info["cyclic"] == 1:
@@ -751,25 +761,25 @@ def process(ctx, exe, items, label, jobs=8):
                             "0..2, after call #%d; history %r, options %r)" % (b[3], b[2], b[4], b[5], b[1], small, opts_dict(o)))
                 ctx.violation(what, {"opts": opts_dict(o), "ops": small, "verdict": list(b)}, klass=klass)
         # ---- tie
-        try:
-            model = parse_model(line)
-        except Exception as e:
-            ctx.broken.append("correspondence:cannot parse oracle answer %r (%r)" % (line[:200], e))
-            continue
-        verdict, why = compare_model(out, model)
+        verdict, why = out["verdict"], out["why"]
         ctx.count(label + "_model_" + verdict)
-        if verdict == "different":
+        if verdict in ("different", "unparsed"):
             if len([b for b in ctx.broken if b.startswith("correspondence:")]) < 5:
                 ctx.broken.append("correspondence:ModelBuilder vs LogicFormula (%s) on opts=%r ops=%r" % (why, opts_dict(o), ops))
 
 
 def run(ctx):
-    ctx.cov["rule"] = ("(1) bounded-exhaustive: after the prefix add_atom(0), add_atom(1) every sequence of <=2 further calls "
-                       "(add_atom, add_and, add_or readonly/mutable/placeholder with every child list of length 1..2 over all "
-                       "signed keys returned so far + TRUE + FALSE, add_disjunct on every mutable node) for 8 option vectors, "
-                       "plus depth 3 with single-child lists; (2) random histories of 5..40 calls with random options, names, "
-                       "per-call compact flags, identifiers with probability None/False. Non-trivial = builds >=3 nodes with a "
-                       "compound call; distinct = distinct (options, history).")
+    ctx.cov["rule"] = ("(1) bounded-exhaustive ('exh2'): after the prefix add_atom(0), add_atom(1) every sequence of <=2 further calls "
+                       "(add_atom of ids 0,2 and of the probability-None / probability-False ids, add_and, add_or "
+                       "readonly/mutable/placeholder with every child list of length 1..2 over all signed keys returned so far + "
+                       "TRUE + FALSE, add_disjunct of every literal on every mutable node); quick: default options, thorough: 8 "
+                       "option vectors; ('exh3') depth 3 with single-child lists, quick: one vector chosen by the seed, thorough: 6; "
+                       "('exh3w', thorough only) one atom + 3 calls with child lists of length <=2, default options; "
+                       "(2) 'rand': random histories of 5..40 calls with random option vectors (max_arity 0..3), names 1..3, "
+                       "add_name, per-call compact flags, identifiers with probability None/False, stratified cycles through "
+                       "mutable nodes. Exhaustive sets are judged in the final state (every prefix is itself enumerated), random "
+                       "histories after every call. Non-trivial = builds >=3 nodes with a compound call; distinct = distinct "
+                       "(options, history).")
     ctx.assumptions += [
         "hand-written Gallina model corresponds to problog/formula.py only as far as the explored histories show",
         "meaning of a cyclic graph = stratified least fixpoint; histories with a cycle through negation are run through "
@@ -778,6 +788,7 @@ def run(ctx):
         "add_disjunct on a key for which a mutable add_or returned FALSE raises ValueError (documented); counted, not judged",
     ]
     ctx.prove("C11/Props.v")
+    ctx.log("proofs checked: %d/%d" % (ctx.cov["discharged"], ctx.cov["obligations"]))
     try:
         exe = ctx.ocaml_oracle("c11", EXTRACT_V, DRIVER_ML)
     except RuntimeError as e:
@@ -807,18 +818,20 @@ def run(ctx):
 
     prefix = [("A", 0, None), ("A", 1, None)]
     thorough = ctx.tier == "thorough"
-    # quick: the default vector + one other (rotating with the seed); thorough: all of them
-    vecs = OPT_VECTORS if thorough else [OPT_VECTORS[0], OPT_VECTORS[1 + ctx.seed % (len(OPT_VECTORS) - 1)]]
+    # quick: depth 2 for the default vector, depth 3 for one other vector (rotating with the seed); thorough: all of them
+    vecs = OPT_VECTORS if thorough else [OPT_VECTORS[0]]
     stream(((o, ops, False) for o in vecs for ops in exhaustive(prefix, 2, 2, True)), "exh2")
-    vecs3 = OPT_VECTORS[:6] if thorough else [OPT_VECTORS[(2 + ctx.seed) % len(OPT_VECTORS)]]
+    vecs3 = OPT_VECTORS[:6] if thorough else [OPT_VECTORS[1 + ctx.seed % (len(OPT_VECTORS) - 1)]]
     stream(((o, ops, False) for o in vecs3 for ops in exhaustive(prefix, 3, 1, False)), "exh3")
     if thorough:
-        # one atom, three further calls with child lists of length <= 2, default options and no-compaction
-        for o in OPT_VECTORS[:2]:
+        # one atom, three further calls with child lists of length <= 2, default options
+        for o in OPT_VECTORS[:1]:
             stream(((o, ops, False) for ops in exhaustive([("A", 0, None)], 3, 2, False)), "exh3w")
 
     def rand():
-        for _ in range(ctx.n(2500, 60000)):
+        for _ in range(ctx.n(2000, 40000)):
             o = random_opts(ctx.rng)
             yield (o, random_history(ctx.rng, ctx.rng.choice([5, 8, 12, 20, 30, 40])), True)
     stream(rand(), "rand")
+    if thorough:
+        ctx.coqchk("PL.C11.Props")
